@@ -183,3 +183,65 @@ def run_serial(cases, check_case, timeout_s=10.0):
         if len(rep.samples) < 4:
             rep.samples.append({'case': case, 'outcome': out.cls})
     return rep
+
+
+class Holder:
+    """Results handed out by earlier calls belong to the caller: a later call must not change them.
+
+    `swap(obj, tag)` first compares every array of the results it still holds with the snapshot taken when they were
+    handed over (-> list of messages, one per changed earlier result), then holds `obj` (the very object the library
+    returned, plus a private copy).  Holds the last `depth` results; works across cases of one worker process, which
+    is exactly where a module-level buffer that is reused for equal shapes shows."""
+
+    def __init__(self, depth=2):
+        self.depth = depth
+        self.items = []
+
+    @staticmethod
+    def _arrays(obj, out):
+        import numpy as np
+        if isinstance(obj, np.ndarray):
+            out.append(obj)
+        elif isinstance(obj, (tuple, list)):
+            for v in obj:
+                Holder._arrays(v, out)
+        elif hasattr(obj, 'data') and hasattr(obj, 'tocoo') and isinstance(getattr(obj, 'data', None), np.ndarray):
+            out.append(obj.data)           # scipy sparse: the value buffer
+        elif hasattr(obj, 'to_numpy'):
+            pass                            # data frames are built per request
+        return out
+
+    def swap(self, obj, tag):
+        import numpy as np
+        msgs = []
+        for arrs, snaps, t in self.items:
+            for a, s in zip(arrs, snaps):
+                same = a.shape == s.shape and (np.array_equal(a, s, equal_nan=True) if a.dtype.kind in 'fc' else np.array_equal(a, s))
+                if not same:
+                    msgs.append('the result returned by [%s] was changed by the later call [%s]' % (t, tag))
+                    break
+        arrs = self._arrays(obj, [])
+        if arrs:
+            self.items.append((arrs, [a.copy() for a in arrs], tag))
+            self.items = self.items[-self.depth:]
+        return msgs
+
+
+class Refill:
+    """Caller-owned input buffers that are refilled IN PLACE from case to case (same object, same address, new
+    contents) - the way a processing loop reuses its arrays.  Anything the library remembers about an argument by
+    identity instead of by value is then stale on the next case of the same shape and dtype."""
+
+    def __init__(self):
+        self.bufs = {}
+
+    def __call__(self, arr, slot=''):
+        import numpy as np
+        arr = np.asarray(arr)
+        key = (slot, arr.shape, arr.dtype.str)
+        b = self.bufs.get(key)
+        if b is None:
+            b = self.bufs[key] = arr.copy()
+            return b
+        b[...] = arr
+        return b
